@@ -119,6 +119,16 @@ impl EventSource for Timer {
             if registration.token != token {
                 return Ok(PostAction::Continue);
             }
+            // The token alone does not identify an arming: it is the same after every
+            // re-registration.  Ignore expirations of an arming that was cancelled
+            // (update / disable + enable) after it had been collected by the poll.
+            if !registration
+                .wheel
+                .borrow_mut()
+                .take_expired(registration.counter)
+            {
+                return Ok(PostAction::Continue);
+            }
             let new_deadline = match callback(*deadline, &mut ()) {
                 TimeoutAction::Drop => return Ok(PostAction::Remove),
                 TimeoutAction::ToInstant(instant) => instant,
@@ -199,6 +209,8 @@ struct TimeoutData {
 pub(crate) struct TimerWheel {
     heap: BinaryHeap<TimeoutData>,
     counter: u32,
+    // counters of the timeouts popped by the current poll and not yet handed to their timer
+    expired: Vec<u32>,
 }
 
 impl TimerWheel {
@@ -206,6 +218,7 @@ impl TimerWheel {
         TimerWheel {
             heap: BinaryHeap::new(),
             counter: 0,
+            expired: Vec::new(),
         }
     }
 
@@ -229,6 +242,7 @@ impl TimerWheel {
     }
 
     pub(crate) fn cancel(&mut self, counter: u32) {
+        self.expired.retain(|c| *c != counter);
         if self
             .heap
             .peek()
@@ -248,7 +262,25 @@ impl TimerWheel {
 
         // There is an item in the heap, this unwrap cannot blow
         let data = self.heap.pop().unwrap();
+        self.expired.push(data.counter);
         Some((data.counter, data.token))
+    }
+
+    /// Forget the expirations of the previous poll.
+    pub(crate) fn clear_expired(&mut self) {
+        self.expired.clear();
+    }
+
+    /// Whether the timeout registered under `counter` expired in the current poll
+    /// (consumes the expiration).
+    pub(crate) fn take_expired(&mut self, counter: u32) -> bool {
+        match self.expired.iter().position(|c| *c == counter) {
+            Some(pos) => {
+                self.expired.swap_remove(pos);
+                true
+            }
+            None => false,
+        }
     }
 
     pub(crate) fn next_deadline(&self) -> Option<std::time::Instant> {
